@@ -17,7 +17,7 @@ RULE = ('pairs/triples of Capacities over all fields discovered from a fresh Cap
         'has a non-zero field')
 REQUIRED = ['mon:add', 'mon:sub', 'mon:lt', 'mon:gt', 'mon:eq', 'mon:negative_fields', 'mon:positive_fields',
             'law:add-sub-inverse', 'law:commutative', 'law:free-plus-allocated', 'law:print-negative',
-            'law:lt-iff-no-negative', 'law:gt-mirror', 'law:eq-reflexive', 'law:eq-symmetric', 'law:compare-with-negative-operand', 'negative-operand-compared', 'law:arithmetic-with-negative-operand']
+            'law:lt-iff-no-negative', 'law:gt-mirror', 'law:eq-reflexive', 'law:eq-symmetric', 'law:compare-with-negative-operand', 'negative-operand-compared', 'law:arithmetic-with-negative-operand', 'law:augmented-assignment']
 ASSUMPTIONS = ['field values are ints >= 0 set through the public constructor; a field set to None (a constructor '
                'artefact that to_json drops) is outside the claimed domain',
                'held on the executions observed, not a proof']
@@ -270,6 +270,18 @@ def one_case(ctx, a, b, c):
         elif dd(s3 - c) != R or dd((r - c) + c) != R:
             ctx.violation('C15/add-sub-inverse-with-negative-operand', '(r+c)-c == r for an operand r with negative fields', dict(w, r=R))
         str(s3), repr(r - c)
+        # augmented assignment: `t = a; t += b` rebinds t to the sum and leaves the object a (still referenced by the caller) alone
+        ctx.count('law:augmented-assignment')
+        t = a
+        t += b
+        u = a
+        u -= c
+        if dd(t) != {f: A[f] + B[f] for f in F} or dd(u) != {f: A[f] - C[f] for f in F}:
+            ctx.violation('C15/augmented-assignment-wrong', '`t = a; t += b` gives a+b, `u = a; u -= c` gives a-c', dict(w, t=dd(t), u=dd(u)))
+        elif dd(a) != A:
+            ctx.violation('C15/augmented-assignment-mutates-operand', 'operands are never modified (`t = a; t += b` must not change a)',
+                          dict(w, a_now=dd(a)))
+            a = Capacities(**A)
         # operands untouched by everything above
         if dd(a) != A or dd(b) != B or dd(c) != C:
             ctx.violation('C15/operand-mutated', 'operands are never modified', dict(w, a_now=dd(a), b_now=dd(b)))
